@@ -76,4 +76,30 @@ def evalNodes (k : KV) (ws : Option (List Rat)) (nodes : List Rat) (j : Nat) : E
     | some ws => rationalise ws row
   if cols.isEmpty then return List.replicate k.npts [] else return transpose cols
 
+/-! #### run-time validated side conditions of the evaluation theorem (`Proofs/Eval.lean`) -/
+
+/-- `u` lies in span `sz` (half-open, or closed at `umax`) -/
+def inSpanB (U : List Rat) (umax : Rat) (sz : Nat) (u : Rat) : Bool :=
+  (decide (nth U sz ≤ u) && decide (u < nth U (sz + 1)))
+  || (u == umax && decide (nth U sz < nth U (sz + 1)) && nth U (sz + 1) == umax)
+
+/-- ordering facts of the knot list -/
+def orderedCheck (k : KV) : Bool :=
+  sortedLE k.v && (k.v.all fun x => decide (x ≤ k.umax)) && (k.npts + k.deg + 1 == k.v.length)
+
+/-- the table look-ups (`spans.index(span)`, `knots[ind]`, `knots[ind+1]`, `matrix[ind]`) hit the span of the node -/
+def lookupCheck (k : KV) (t : Table) (j : Nat) (node : Rat) : Bool :=
+  match k.span node with
+  | .ok sz =>
+    match indexOfNat? sz t.spans with
+    | some ind =>
+        inSpanB k.v k.umax sz node && (nth t.knots ind == nth k.v sz) && (nth t.knots (ind + 1) == nth k.v (sz + 1))
+        && (t.polys.getD ind [] == tableSpan k.v (nth k.v sz) (nth k.v (sz + 1)) sz j)
+        && decide (k.deg ≤ sz) && decide (sz < k.npts)
+    | none => false
+  | .error _ => false
+
+def evalCheck (k : KV) (t : Table) (j : Nat) (node : Rat) : Bool :=
+  orderedCheck k && decide (j ≤ k.deg) && lookupCheck k t j node
+
 end NV
